@@ -3,9 +3,9 @@ import Pms.Props.C20
 #print axioms Pms.Voro.C20_rows
 #print axioms Pms.Voro.C20_rows_shape
 #print axioms Pms.Voro.C20_overall_lines
-#print axioms Pms.Voro.C20_guard
-#print axioms Pms.Voro.C20_guard_raises
 #print axioms Pms.Voro.C20_guard_partial
+#print axioms Pms.Voro.C20_guard_raises
+#print axioms Pms.Voro.C20_guard_FullStatement_refuted
 #print axioms Pms.Voro.C20_symmetry_preserved
 #print axioms Pms.Voro.C20_weights_rounding
 #print axioms Pms.Voro.C20_volume_sum
